@@ -67,3 +67,36 @@ pub fn unwrap_failed<E>(e: E)
 pub fn ghost_set_locked(v: bool, Tracked(p): Tracked<&mut P>)
     ensures final(p).locked == v, final(p).msgs == old(p).msgs, final(p).wakeups == old(p).wakeups, final(p).ack_waited == old(p).ack_waited
 { }
+
+// ---- the forwarding callback of route_ipc_receiver_to_crossbeam_sender (closure body verified as a function) ----
+pub struct OpaqueIpcMessage { pub ghost mid: int }
+pub struct F {
+    pub forwarded: Seq<int>,        // messages put on the crossbeam channel, in order
+    pub receiver_alive: bool,       // the crossbeam Receiver still exists
+    pub decodable: bool,            // the payload of THIS message decodes as T
+}
+pub struct CbSender<T> { pub _p: PhantomData<T> }
+#[derive(Debug)] pub struct CbSendError { pub _p: () }
+pub uninterp spec fn val_id<T>(v: T) -> int;
+impl OpaqueIpcMessage {
+    // OpaqueIpcMessage::to (unit U7): may fail on an undecodable payload
+    #[verifier::external_body]
+    pub fn to<T>(self, Tracked(f): Tracked<&mut F>) -> (r: Result<T, BincodeError>)
+        ensures *final(f) == *old(f), r is Ok <==> old(f).decodable, r matches Ok(v) ==> val_id(v) == self.mid
+    { unimplemented!() }
+}
+impl<T> CbSender<T> {
+    // crossbeam Sender::send: waits for room; fails only when the Receiver is gone
+    #[verifier::external_body]
+    pub fn send(&self, v: T, Tracked(f): Tracked<&mut F>) -> (r: Result<(), CbSendError>)
+        ensures final(f).receiver_alive == old(f).receiver_alive, final(f).decodable == old(f).decodable, old(f).receiver_alive ==> r is Ok,
+            r is Ok ==> final(f).forwarded == old(f).forwarded.push(val_id(v)), r is Err ==> final(f).forwarded == old(f).forwarded
+    { unimplemented!() }
+    // Sender::try_send: also fails when a bounded channel is full
+    #[verifier::external_body]
+    pub fn try_send(&self, v: T, Tracked(f): Tracked<&mut F>) -> (r: Result<(), CbSendError>)
+        ensures final(f).receiver_alive == old(f).receiver_alive, final(f).decodable == old(f).decodable,
+            r is Ok ==> final(f).forwarded == old(f).forwarded.push(val_id(v)), r is Err ==> final(f).forwarded == old(f).forwarded
+    { unimplemented!() }
+}
+pub fn drop_value<T>(t: T) { }
